@@ -4,6 +4,7 @@ import (
 	"fmt"
 	"go/constant"
 	"go/types"
+	"sort"
 	"strings"
 
 	"golang.org/x/tools/go/ssa"
@@ -110,7 +111,7 @@ func (ex *Exec) call(fr *Frame, st *State, x ssa.CallInstruction) Val {
 func (ex *Exec) havocCall(fr *Frame, st *State, what string, resT types.Type, pure bool) Val {
 	ex.havocCalls[what] = true
 	if !pure {
-		ex.havocHeap(st, nil)
+		ex.havocAll(st, "call.go:113")
 	}
 	if resT == nil {
 		return nil
@@ -119,6 +120,20 @@ func (ex *Exec) havocCall(fr *Frame, st *State, what string, resT types.Type, pu
 }
 
 func (ex *Exec) invoke(fr *Frame, st *State, c *ssa.CallCommon, recv Val, args []Val, resT types.Type, x ssa.CallInstruction) Val {
+	if ex.checkPanics {
+		if sv, ok := recv.(SV); ok && sv.T.Sort == SIface {
+			key := fr.label + "invoke" + sv.T.S
+			if !ex.nilChecked[key] {
+				ex.nilChecked[key] = true
+				pos := fr.fn.Pos()
+				if x != nil {
+					pos = x.Pos()
+				}
+				txt := ex.ld.exprAt(pos, "call")
+				ex.oblige(fr, "nil-invoke", txt, fr.blockPC, Not(Eq(app(SInt, "if.tag", sv.T), IntLit(0))), pos)
+			}
+		}
+	}
 	// statically known dynamic type
 	if iv, ok := recv.(IfaceV); ok {
 		ms := ex.ld.Prog.MethodSets.MethodSet(iv.Dyn)
@@ -235,8 +250,11 @@ func (ex *Exec) inline(fr *Frame, st *State, fn *ssa.Function, free []Val, args 
 	for i, p := range fn.Params {
 		if i < len(args) {
 			nf.regs[p] = args[i]
+			nf.params[p.Name()] = args[i]
+			nf.ptypes[p.Name()] = p.Type()
 		}
 	}
+	nf.entry = st.clone()
 	for i, fv := range fn.FreeVars {
 		if i < len(free) {
 			nf.regs[fv] = free[i]
@@ -308,7 +326,7 @@ func (ex *Exec) runDefers(fr *Frame, st *State) {
 		fv, ok := d.fn.(FuncV)
 		if !ok {
 			ex.unsup("deferred dynamic call")
-			ex.havocHeap(st, nil)
+			ex.havocAll(st, "call.go:328")
 			continue
 		}
 		if d.flag.S == "true" {
@@ -386,13 +404,63 @@ func (ex *Exec) applyContract(fr *Frame, st *State, ct *Contract, key string, na
 				ks = append(ks, a)
 			}
 		}
+		// row-restricted keys: evaluate the rows in the pre-state
+		type rowKey struct {
+			key  string
+			rows []Term
+			pre  Term
+		}
+		var rks []rowKey
+		if !all {
+			var rkNames []string
+			for k := range ct.AssignRows {
+				rkNames = append(rkNames, k)
+			}
+			sort.Strings(rkNames)
+			for _, k := range rkNames {
+				listed := false
+				for _, a := range ks {
+					if a == k {
+						listed = true
+					}
+				}
+				if listed {
+					continue
+				}
+				rk := rowKey{key: k}
+				for _, rc := range ct.AssignRows[k] {
+					rk.rows = append(rk.rows, ex.term(ex.eval(rc.Expr, env).V, SInt))
+				}
+				rks = append(rks, rk)
+				allocs = true
+			}
+		}
+		allocPre := st.alloc
 		if all {
-			ex.havocHeap(st, nil)
+			ex.havocAll(st, "call.go:407")
 		} else if len(ks) > 0 || allocs {
+			if ks == nil {
+				ks = []string{} // only the allocation counter moves
+			}
+			for i := range rks {
+				rks[i].pre = ex.heapReadAny(st, rks[i].key)
+			}
 			ex.havocHeap(st, ks)
+			for _, rk := range rks {
+				if rk.pre.S == "" {
+					continue
+				}
+				nw := ex.sc.Fresh("hv."+rk.key, rk.pre.Sort)
+				excl := ""
+				for _, rt := range rk.rows {
+					excl += fmt.Sprintf(" (not (= r!q %s))", rt.S)
+				}
+				ex.sc.Assert(T(SBool, fmt.Sprintf("(forall ((r!q Int)) (! (=> (and (< r!q %s)%s) (= (select %s r!q) (select %s r!q))) :pattern ((select %s r!q))))", allocPre.S, excl, nw.S, rk.pre.S, nw.S)))
+				st.heap[rk.key] = nw
+			}
 		}
 	} else if !ct.Extern {
-		ex.havocHeap(st, nil)
+		ex.havocAll(st, "call to "+key+" (its contract has no assigns clause)")
 	}
 	var res Val
 	if resT != nil {
